@@ -9,6 +9,16 @@ CLAIMS = {
   note="VTA call graph over-approximates dynamic calls; stdlib and x/text are not analysed; guards are recognised as SSA comparisons of the counter with a bound",
   technique="static analysis: call-graph SCC inventory + CFG path rules (edge dominance, must-precede/must-follow) on go/ssa",
   ref="DESIGN.md §4 C01"),
+ "C13": dict(
+  text="Structural necessary conditions of 'reusable objects never leak state', decided for the caches of the reusable objects: (R-KEY/fields) every leaf of the shape-plan cache key that shapePlan.init fills from an input not covered by the map key is read by shapePlan.equal (data/control dependence of each stored value on each parameter, through callees); (R-KEY/projection) the key of the shaper's font cache is not a strict projection of an argument that the constructor of the cached value captures; (R-INV) every function outside the cached computation that may write a field read by Face.glyphExtentsRaw resets the extents cache on all paths, up to the exported API. Reset completeness of scratch state (R-STATE) is reported separately in the evidence when built. Equality of results with a fresh object in general is not decided.",
+  note="field-based effects (one abstract object per type), VTA call graph; dependence analysis is scoped to the key constructor and its callees; classification tables for exempt fields carry one-line reasons in sa/c13.go",
+  technique="static analysis: data/control-dependence (P-ORG) of key fields, field-effect sets and CFG must-follow/must-precede of invalidators on go/ssa",
+  ref="DESIGN.md §4 C13"),
+ "C14": dict(
+  text="Cache transparency of FontMap, structurally: (R-INV) every writer of a field read by ResolveFace's miss path other than the key components (query, script) clears the rune LRU, and every writer of a field read by buildCandidates resets built, on every path through the write or in every caller up to the exported API. Totality (non-nil result) and the substitution scoring are not decided.",
+  note="field-based effects; exempt fields (idempotent memos, scratch buffers, logger) are listed with reasons in sa/c13.go; the LRU key function itself is trusted to include query, script and rune",
+  technique="static analysis: field-effect sets over the VTA call graph + CFG must-follow/must-precede of invalidators on go/ssa",
+  ref="DESIGN.md §4 C14"),
  "C17": dict(
   text="Static effect argument for 'a parsed font can be shared': no function that can run after package initialisation writes memory derived from a package-level variable (R-GLOBAL, only exemption: a direct store inside a literal passed to sync.Once.Do), and no function reachable from the exported API outside constructors writes memory derived from any *font.Font (R-FONT; subsumes caching a per-goroutine object on the font). All mutation kinds are covered (stores, map updates, copy/append destinations, delete/clear, sort.*, binary Put*, io.Read*). Absence of such writes implies absence of data races on that memory under every schedule; equality of concurrent and sequential results beyond that is not decided.",
   note="origin tracking is context-insensitive and field-based; references stored as elements of non-derived containers are re-discovered by type only; stdlib/x-text/x-image trusted; no unsafe/reflect/cgo (checked)",
